@@ -26,8 +26,13 @@ ASSUMPTIONS = [
     '(10^d - m <= 2, 21, 407, 4031 for d = 15..18), validated on every run by cases on both sides of each threshold',
     'lazy VCF sources (read from a canonical file) are modelled by the eager serialiser on the typed rows; the lazy '
     'extraction itself is property C04']
-PARTIAL = ['C03_int_text_partial: |n| < 10^15 - 2 (float log10 width) and n <> -2^63',
-           'C03_fasta_partial: every sequence non-empty']
+PARTIAL = ['C03_int_text_partial: |n| < 10^15 - 2 (float log10 width; -2^63 wraps) — full for the repaired printer (C03_int_text_fixed)',
+           'C03_fasta_partial: every sequence non-empty — full for the repaired from_data (C03_fasta_fixed)',
+           'C03_from_data_canonical_partial: tables in table_ok (rectangular, int cells small, FASTA sequences non-empty, not VCFEntry with Union INFO)',
+           'C03_write_pieces_partial: not (gzip target with a header that is appended to); first session hands over a table outside an '
+           'all-empty stream — full for the repaired writer (C03_write_pieces_fixed_writer)',
+           'C03_parse_serialise_delim / _fastq: reference reader; text/int/int-list columns without TAB/LF in cells; FASTA, VCF header '
+           'skipping, SAM tag column and float columns are covered by the correspondence only']
 PER_FILE = 40
 
 # column kinds: D identifier (SequenceID), S text, I int, L int list, F float, Q qualities, R rest of line
@@ -124,7 +129,8 @@ class G:
                     r.choice(['.', '0', '1', '2']),
                     r.choice(['', '.', 'gene_id "g%d";' % self.small(), 'gene_id "g1"; transcript_id "t 1"; exon_number 3;'])]
         if fmt == 'vcf':
-            return [self.ident(), self.coord(0.15, 0), self.opt(lambda: 'rs%d' % self.small()),
+            # POS is stored 0-based and written +1: the largest representable stored value is 2^63 - 2
+            return [self.ident(), min(self.coord(0.15, 0), I64MAX - 1), self.opt(lambda: 'rs%d' % self.small()),
                     self.seq(r.choice([1, 1, 2, 5]), 'acgtn'), r.choice(['.', 'A', 'T,G', '<DEL>', self.seq(3, 'dna')]),
                     r.choice(['.', '50', '29.5', '0']), r.choice(['.', 'PASS', 'q10;s50']),
                     r.choice(['.', 'DP=3', 'AF=0.5;DB', 'NS=3;DP=14;AF=0.5;DB;H2'])]
@@ -697,6 +703,12 @@ def _ref_run(case, T):
         if F_EMPTYID in T and any(k == 'D' and all(r[j] == '' for r in rows) for j, k in enumerate(kinds)):
             read_ok = False
         if case['fmt'] == 'fasta' and F_FASTA in T and any(len(r[1]) == 0 for r in rows):
+            read_ok = False
+    if read_ok and has_header:
+        body = content.split('\n')
+        while body and body[0].startswith('#'):
+            body.pop(0)
+        if any(l.startswith('#') for l in body):       # a header in the middle of the file is not a record
             read_ok = False
     exp_rows = []
     if read_ok:
